@@ -39,7 +39,10 @@ OBJECT_SETS = [dict(G.OBJECTS), {"o1": "t1", "o2": "t1", "o3": "t3", "u1": "t2",
                # objects of the root type declared before / between objects of proper types (a bare name in a typed list
                # takes the type that follows it)
                {"x1": "object", "o1": "t1", "o2": "t1", "o3": "t3", "u1": "t2"},
-               {"o1": "t1", "o2": "t1", "x1": "object", "o3": "t3", "x2": "object", "u1": "t2"}]
+               {"o1": "t1", "o2": "t1", "x1": "object", "o3": "t3", "x2": "object", "u1": "t2"},
+               # a problem that lists a name the domain also declares as a constant (with the constant's type / a subtype)
+               {"o1": "t1", "k": "t1", "o2": "t1", "o3": "t3", "u1": "t2"},
+               {"k": "t3", "o1": "t1", "o2": "t1", "o3": "t3", "u1": "t2"}]
 DOMAIN_NAME = "uni-dom2"  # long enough to have proper prefixes, suffixes and extensions
 DOMAIN_TEXT = G.domain_text([("act", [], ["and"], ["and"])], const=True, name=DOMAIN_NAME)
 _N = [0]
